@@ -175,3 +175,74 @@ def search_syntax(deadline, rng):
                     'expected': 'E840=%d E800=%d E801=%d' % tuple(acc), 'expect_result': {'E840': acc[0], 'E800': acc[1], 'E801': acc[2]},
                     'programs_tried': tried}
     return None
+
+
+# ------------------------------------------------------------------ C06: lint L1800
+def gen_valid(rng, depth):
+    """a statement tree that violates no placement rule (so the whole pipeline up to the linter runs)"""
+    k = rng.random()
+    if k < 0.3 or depth >= 4:
+        return ('assign',)
+    if k < 0.4:
+        return ('goto',)
+    if k < 0.65:
+        return ('block', gen_valid_block(rng, depth + 1))
+    then = ('goto',) if rng.random() < 0.25 else ('block', gen_valid_block(rng, depth + 1))
+    r = rng.random()
+    if r < 0.4:
+        els = None
+    elif r < 0.55:
+        els = ('goto',)
+    elif r < 0.85:
+        els = ('block', gen_valid_block(rng, depth + 1))
+    else:
+        els = gen_valid(rng, depth + 1)
+        if els[0] != 'if':
+            els = ('block', [els])
+    return ('if', then, els)
+
+
+def gen_valid_block(rng, depth):
+    body = [gen_valid(rng, depth) for _ in range(rng.randint(0, 3))]
+    if rng.random() < 0.45:
+        body.append(('loop',))     # a loop is legal only as the final statement of a braced block
+    return body
+
+
+def l1800_oracle(st, is_branch):
+    """number of braced BRANCH blocks whose first statement is `loop` (the only thing that raises L1800)"""
+    n = 0
+    if st[0] == 'block':
+        if is_branch and st[1] and st[1][0][0] == 'loop':
+            n += 1
+        for c in st[1]:
+            n += l1800_oracle(c, False)
+    elif st[0] == 'if':
+        n += l1800_oracle(st[1], True)
+        if st[2] is not None:
+            n += l1800_oracle(st[2], st[2][0] == 'block')
+    return n
+
+
+def search_l1800(deadline, rng):
+    tried = 0
+    while time.time() < deadline and tried < 3000:
+        tried += 1
+        body = [gen_valid(rng, 1) for _ in range(rng.randint(1, 4))]
+        src = 'fn main()\n{\n\tvar v: i32 = 0;\n' + ''.join(stmt_src(s, '\t') for s in body) + '\tend:\n}\n'
+        exp = sum(l1800_oracle(s, False) for s in body)
+        r = replayrun.run('alpha', src, timeout=20)
+        if r.get('status') != 'ok':
+            if r.get('status') in ('panic', 'crash'):
+                return {'mode': 'alpha', 'input_utf8_lossy': src, 'input_hex': src.encode().hex(), 'observed': r, 'expected': 'no panic'}
+            continue
+        res = r['result']
+        codes = [c for c in res.get('errors', '[]').strip('[]').split(',') if c]
+        lints = [c for c in res.get('lints', '[]').strip('[]').split(',') if c]
+        got = sum(1 for c in lints if c == '1800')
+        if codes or got != exp:
+            return {'mode': 'alpha', 'input_utf8_lossy': src, 'input_hex': src.encode().hex(), 'observed': res,
+                    'expected': 'accepted (every loop is final in its block, every branch is a goto, a block or an else-if) with exactly %d lint(s) L1800: '
+                                'one per braced branch whose first statement is loop, and nothing else raises it' % exp,
+                    'expect_l1800': exp, 'programs_tried': tried}
+    return None
